@@ -1,0 +1,212 @@
+//go:build verif
+
+package ucfg
+
+import (
+	"fmt"
+	"math"
+	"reflect"
+	"sort"
+)
+
+// Verification hooks (build tag "verif"). Read-only views of internal state used by
+// the correspondence checks under /verif; nothing here is reachable without the tag.
+
+// VerifField is one parsed path segment.
+type VerifField struct {
+	IsIdx bool
+	Name  string
+	Idx   int
+}
+
+// VerifExp is a structural view of a variable-expansion expression.
+type VerifExp struct {
+	Kind  string // const | ref | splice | single | default | alt | err | unknown
+	Str   string
+	Path  []VerifField
+	Sep   string
+	Parts []*VerifExp
+	L, R  *VerifExp
+}
+
+// VerifNode is a structural view of one value of a config tree. Nothing is evaluated.
+type VerifNode struct {
+	Kind     string // nil | bool | int | uint | float | string | ref | splice | sub
+	Field    string // stored ctx.field
+	ParentID uintptr
+	ID       uintptr // identity of the *Config (sub) or of the primitive
+	FieldsID uintptr // identity of the *fields (sub)
+	HasMeta  bool
+	Source   string
+	B        bool
+	I        int64
+	U        uint64
+	FBits    uint64
+	S        string
+	Exp      *VerifExp
+	Keys     []string // sorted
+	Dict     map[string]*VerifNode
+	HasDict  bool
+	HasArr   bool
+	Arr      []*VerifNode
+}
+
+func verifFields(p cfgPath) []VerifField {
+	out := make([]VerifField, 0, len(p.fields))
+	for _, f := range p.fields {
+		switch v := f.(type) {
+		case idxField:
+			out = append(out, VerifField{IsIdx: true, Idx: v.i})
+		case namedField:
+			out = append(out, VerifField{Name: v.name})
+		}
+	}
+	return out
+}
+
+// VerifParsePath exposes parsePath.
+func VerifParsePath(in, sep string, maxIdx int64, enableNumKeys, escape bool) []VerifField {
+	return verifFields(parsePath(in, sep, maxIdx, enableNumKeys, escape))
+}
+
+// VerifParsePathIdx exposes parsePathIdx under the given options.
+func VerifParsePathIdx(in string, idx int, options ...Option) []VerifField {
+	return verifFields(parsePathIdx(in, idx, makeOptions(options)))
+}
+
+// VerifParseSplice exposes parseSplice.
+func VerifParseSplice(in, sep string, maxIdx int64, enableNumKeys, escape bool) (*VerifExp, error) {
+	e, err := parseSplice(in, sep, maxIdx, enableNumKeys, escape)
+	if err != nil {
+		return nil, err
+	}
+	return verifExp(e), nil
+}
+
+func verifExp(e varEvaler) *VerifExp {
+	switch v := e.(type) {
+	case constExp:
+		return &VerifExp{Kind: "const", Str: string(v)}
+	case *reference:
+		return &VerifExp{Kind: "ref", Path: verifFields(v.Path), Sep: v.Path.sep}
+	case *splice:
+		out := &VerifExp{Kind: "splice"}
+		for _, p := range v.pieces {
+			out.Parts = append(out.Parts, verifExp(p))
+		}
+		return out
+	case *expansionSingle:
+		return &VerifExp{Kind: "single", L: verifExp(v.evaler), Sep: v.pathSep}
+	case *expansionDefault:
+		return &VerifExp{Kind: "default", L: verifExp(v.left), R: verifExp(v.right), Sep: v.pathSep}
+	case *expansionAlt:
+		return &VerifExp{Kind: "alt", L: verifExp(v.left), R: verifExp(v.right), Sep: v.pathSep}
+	case *expansionErr:
+		return &VerifExp{Kind: "err", L: verifExp(v.left), R: verifExp(v.right), Sep: v.pathSep}
+	}
+	return &VerifExp{Kind: "unknown", Str: fmt.Sprintf("%T", e)}
+}
+
+func verifCtx(n *VerifNode, ctx context, m *Meta) {
+	n.Field = ctx.field
+	if p, ok := ctx.parent.(cfgSub); ok && p.c != nil {
+		n.ParentID = reflect.ValueOf(p.c).Pointer()
+	}
+	if m != nil {
+		n.HasMeta = true
+		n.Source = m.Source
+	}
+}
+
+// VerifDump returns a structural view of c: identities, parent links, stored field
+// names, unresolved expressions. It evaluates nothing and writes nothing.
+func VerifDump(c *Config) *VerifNode {
+	return verifDumpValue(cfgSub{c}, map[uintptr]bool{})
+}
+
+func verifDumpValue(v value, seen map[uintptr]bool) *VerifNode {
+	n := &VerifNode{}
+	switch x := v.(type) {
+	case nil:
+		n.Kind = "absent"
+	case *cfgNil:
+		n.Kind = "nil"
+		n.ID = reflect.ValueOf(x).Pointer()
+		verifCtx(n, x.ctx, x.metadata)
+	case *cfgBool:
+		n.Kind, n.B = "bool", x.b
+		n.ID = reflect.ValueOf(x).Pointer()
+		verifCtx(n, x.ctx, x.metadata)
+	case *cfgInt:
+		n.Kind, n.I = "int", x.i
+		n.ID = reflect.ValueOf(x).Pointer()
+		verifCtx(n, x.ctx, x.metadata)
+	case *cfgUint:
+		n.Kind, n.U = "uint", x.u
+		n.ID = reflect.ValueOf(x).Pointer()
+		verifCtx(n, x.ctx, x.metadata)
+	case *cfgFloat:
+		n.Kind, n.FBits = "float", math.Float64bits(x.f)
+		n.ID = reflect.ValueOf(x).Pointer()
+		verifCtx(n, x.ctx, x.metadata)
+	case *cfgString:
+		n.Kind, n.S = "string", x.s
+		n.ID = reflect.ValueOf(x).Pointer()
+		verifCtx(n, x.ctx, x.metadata)
+	case *cfgDynamic:
+		n.ID = reflect.ValueOf(x).Pointer()
+		verifCtx(n, x.ctx, x.metadata)
+		switch d := x.dyn.(type) {
+		case *refDynValue:
+			n.Kind = "ref"
+			n.Exp = verifExp((*reference)(d))
+		case spliceDynValue:
+			n.Kind = "splice"
+			n.Exp = verifExp(d.e)
+		default:
+			n.Kind = "dyn"
+		}
+	case cfgSub:
+		n.Kind = "sub"
+		if x.c == nil {
+			n.Kind = "subnil"
+			return n
+		}
+		n.ID = reflect.ValueOf(x.c).Pointer()
+		verifCtx(n, x.c.ctx, x.c.metadata)
+		if x.c.fields == nil {
+			n.Kind = "subnofields"
+			return n
+		}
+		n.FieldsID = reflect.ValueOf(x.c.fields).Pointer()
+		if seen[n.ID] {
+			n.Kind = "subcycle"
+			return n
+		}
+		seen[n.ID] = true
+		defer delete(seen, n.ID)
+		if x.c.fields.d != nil {
+			n.HasDict = true
+			n.Dict = map[string]*VerifNode{}
+			for k, f := range x.c.fields.d {
+				n.Keys = append(n.Keys, k)
+				n.Dict[k] = verifDumpValue(f, seen)
+			}
+			sort.Strings(n.Keys)
+		}
+		if x.c.fields.a != nil {
+			n.HasArr = true
+			for _, f := range x.c.fields.a {
+				n.Arr = append(n.Arr, verifDumpValue(f, seen))
+			}
+		}
+	default:
+		n.Kind = fmt.Sprintf("unknown:%T", v)
+	}
+	return n
+}
+
+// VerifHandlingNames lists the configHandling enum in declaration order.
+func VerifHandlingNames() []string {
+	return []string{"default", "merge", "replace", "append", "prepend", "arrreplace"}
+}
